@@ -904,3 +904,57 @@ Section Explain.
   Definition M_explain_gpos (ll : list lookup) : list N :=
     join_nl (map (explain_lookup k_GPOS) ll).
 End Explain.
+
+(* ------------------------------------------------------------------ *)
+(* Nested-action lists "1@0 2@1" (readNestedLookups / explainNested).  They
+   occur inside GSUB5/GSUB6 lookups only, whose grammar M_parse does not
+   cover; the pair of functions is modelled on its own.
+   An action is (LookupListIndex, SequenceIndex). *)
+
+Section Nested.
+  Variable endl : N.
+
+  Fixpoint read_nested (fuel : nat) (res : list (N * N)) : P (list (N * N)) :=
+    match fuel with
+    | O => out_of_fuel
+    | S f =>
+        t <- read endl ;;
+        if negb (ityp_eqb (ttyp t) TInt) then (unread endl t ;;; ret res)
+        else
+          match atoi (tval t) with
+          | None => fatal endl
+          | Some x =>
+              if (x <? 0)%Z || (65536 <=? x)%Z then fatal endl
+              else
+                required endl TAt ;;;
+                t2 <- read endl ;;
+                if negb (ityp_eqb (ttyp t2) TInt) then fatal endl
+                else
+                  match atoi (tval t2) with
+                  | None => fatal endl
+                  | Some y =>
+                      if (y <? 0)%Z || (65536 <=? y)%Z then fatal endl
+                      else read_nested f (res ++ [(Z.to_N x, Z.to_N y)])
+                  end
+          end
+    end.
+End Nested.
+
+(* readNestedLookups on the items of a text *)
+Definition M_parse_nested (U : uclass) (text : list N) : presult (list (N * N)) :=
+  let ts := M_lex U text in
+  match read_nested (end_line ts) (S (S (length ts))) [] ts with
+  | POk (r, _) => POk r
+  | PErr l => PErr l
+  | PPanic => PPanic
+  | PFuel => PFuel
+  | PUnmodelled => PUnmodelled
+  end.
+
+(* explainNested *)
+Fixpoint M_explain_nested (acts : list (N * N)) : list N :=
+  match acts with
+  | [] => []
+  | [(li, si)] => digits li ++ 64 :: digits si
+  | (li, si) :: r => digits li ++ 64 :: digits si ++ 32 :: M_explain_nested r
+  end.
